@@ -311,6 +311,10 @@ impl Report {
             println!("[{}] outcomes: {:?}", self.id, c.hist);
         }
         if unknown.is_empty() {
+            if c.evaluations == 0 {
+                eprintln!("MACHINERY-FAILURE: property={} nothing could be evaluated (every case failed a prerequisite or was skipped): no verdict", self.id);
+                return 3;
+            }
             return 0;
         }
         unknown.sort_by(|a, b| a.signature.cmp(&b.signature));
